@@ -42,6 +42,7 @@ type pend struct {
 type history struct {
 	root         rate.Limiter
 	t0           time.Time
+	t1           time.Time // after rate.New returned: the ticker was started between t0 and t1
 	handles      []rate.Limiter
 	pending      []pend
 	period       time.Duration
@@ -165,6 +166,8 @@ func (h *history) op(f []string) string {
 			return "inconclusive"
 		}
 		return "tick" + h.collect(false) + " last=" + h.perLimiter(func(l rate.Limiter) string { return strconv.Itoa(l.LastUsed()) })
+	case len(f) >= 3 && f[0] == "window":
+		return h.window(f[1] == "early", strings.Split(strings.Join(f[2:], " "), ";"))
 	case len(f) == 2 && f[0] == "close":
 		l := handle(f[1])
 		if l == nil {
@@ -225,6 +228,168 @@ var hungHistories atomic.Int32
 
 const maxHung = 6
 
+// window runs up to three calls inside the Close-vs-tick window: the harness holds the controller's lock (white box)
+// across the next tick, so that the ticker goroutine — having received the tick — and the goroutines making the calls
+// all wait for the lock (`early`: the calls queue up before the tick fires, `late`: after), then releases it.  Which of
+// them gets the lock in which order is up to the mutex: the model computes the set of outcomes of ALL interleavings
+// and the line is accepted when the observed outcome is one of them.  At most one `use` and one `new` per window (so
+// that request and limiter numbers do not depend on the order).
+func (h *history) window(early bool, ops []string) string {
+	if h.rootClosed {
+		return "no-ticker"
+	}
+	if !h.inWindow() {
+		h.inconclusive = true
+		return "inconclusive"
+	}
+	type call struct {
+		f    []string
+		l    rate.Limiter
+		ch   <-chan error
+		nl   rate.Limiter
+		done chan struct{}
+	}
+	var calls []*call
+	uses, news := 0, 0
+	for _, o := range ops {
+		f := strings.Fields(o)
+		if len(f) < 2 {
+			return "bad-op"
+		}
+		i, err := strconv.Atoi(f[1])
+		if err != nil || i < 0 || i >= len(h.handles) {
+			return "bad-handle"
+		}
+		switch {
+		case f[0] == "use" && len(f) == 3:
+			uses++
+		case f[0] == "new" && len(f) == 3:
+			news++
+		case f[0] == "setcap" && len(f) == 3, f[0] == "close" && len(f) == 2:
+		default:
+			return "bad-op"
+		}
+		calls = append(calls, &call{f: f, l: h.handles[i], done: make(chan struct{})})
+	}
+	if uses > 1 || news > 1 || len(calls) > 3 {
+		return "bad-op"
+	}
+	wasOpen := !h.root.Closed()
+	sentinel := rate.VerifSentinel(h.root)
+	rate.VerifLock(h.root)
+	launch := func() {
+		for _, c := range calls {
+			go func(c *call) {
+				defer close(c.done)
+				defer func() { _ = recover() }()
+				switch c.f[0] {
+				case "use":
+					c.ch = c.l.Use(hx.Atoi(c.f[2]))
+				case "new":
+					c.nl = c.l.New(hx.Atoi(c.f[2]))
+				case "setcap":
+					c.l.SetCap(hx.Atoi(c.f[2]))
+				case "close":
+					c.l.Close()
+				}
+			}(c)
+			time.Sleep(200 * time.Microsecond) // let it reach the lock before the next one starts
+		}
+	}
+	if early {
+		launch()
+	}
+	// the tick fires while the harness holds the lock; wait until the ticker goroutine has received it
+	fired := h.t1.Add(time.Duration(h.tickIdx+1) * h.period).Add(h.period / 16) // certainly after the tick has fired
+	for time.Now().Before(fired) || !rate.VerifTickConsumed(h.root) {
+		if time.Now().After(fired.Add(h.period / 4)) {
+			rate.VerifUnlock(h.root)
+			h.inconclusive = true
+			return "inconclusive"
+		}
+		time.Sleep(h.period / 64)
+	}
+	time.Sleep(time.Millisecond) // from the receive to the Lock() call
+	if !early {
+		launch()
+	}
+	rate.VerifUnlock(h.root)
+	limit := time.After(waitLimit)
+	for _, c := range calls {
+		select {
+		case <-c.done:
+		case <-limit:
+			h.dead = true
+			return "window-hang: `" + strings.Join(c.f, " ") + "` did not return"
+		}
+	}
+	select {
+	case <-sentinel:
+	case <-limit:
+		h.dead = true
+		return "window-timeout"
+	}
+	h.root.Closed() // barrier
+	h.tickIdx++
+	if time.Now().After(h.fire(h.tickIdx).Add(h.period / 2)) {
+		h.inconclusive = true
+		return "inconclusive"
+	}
+	var sb strings.Builder
+	sb.WriteString("window")
+	closedRoot := wasOpen && h.root.Closed()
+	var newPend []pend
+	for _, c := range calls {
+		switch c.f[0] {
+		case "use":
+			id := h.nreq
+			h.nreq++
+			got := "pending"
+			if c.ch == nil {
+				got = "panic"
+			} else if closedRoot {
+				select {
+				case err := <-c.ch:
+					got = classify(err)
+				case <-limit:
+					got = "never-answered"
+					h.dead = true
+				}
+			} else {
+				select {
+				case err := <-c.ch:
+					got = classify(err)
+				default:
+					newPend = append(newPend, pend{ch: c.ch, id: id})
+				}
+			}
+			sb.WriteString(" u=" + got)
+		case "new":
+			if c.nl == nil {
+				sb.WriteString(" n=nil")
+			} else {
+				h.handles = append(h.handles, c.nl)
+				sb.WriteString(" n=ok")
+			}
+		}
+	}
+	if closedRoot {
+		h.rootClosed = true
+		sb.WriteString(h.collect(true))
+	} else {
+		sb.WriteString(h.collect(false))
+	}
+	h.pending = append(h.pending, newPend...)
+	sb.WriteString(" closed=" + h.perLimiter(func(l rate.Limiter) string {
+		if l.Closed() {
+			return "1"
+		}
+		return "0"
+	}))
+	sb.WriteString(" last=" + h.perLimiter(func(l rate.Limiter) string { return strconv.Itoa(l.LastUsed()) }))
+	return sb.String()
+}
+
 // runHistory executes one history (`reset <rootCap>` and the lines after it).
 func runHistory(lines []string) []string {
 	out := make([]string, 0, len(lines))
@@ -260,7 +425,8 @@ func runHistory(lines []string) []string {
 			h = &history{period: time.Duration(envInt("C16_PERIOD_MS", 200)) * time.Millisecond}
 			h.t0 = time.Now()
 			h.root = rate.New(c, h.period)
-			if time.Since(h.t0) > h.period/8 {
+			h.t1 = time.Now()
+			if h.t1.Sub(h.t0) > h.period/8 {
 				h.inconclusive = true
 			}
 			h.handles = []rate.Limiter{h.root}
@@ -701,7 +867,81 @@ func genExact(r *hx.Rng, emit func(string)) int {
 	return cnt
 }
 
+// genWindow: calls made inside the Close-vs-tick window (see history.window): root Close, child Close, Use, SetCap and
+// New racing the tick that the ticker goroutine has already received.
+func genWindow(r *hx.Rng, emit func(string)) int {
+	cnt := 0
+	out := func(s string) { emit(s); cnt++ }
+	rootCap := r.Range(1, 8)
+	out("reset " + strconv.Itoa(rootCap))
+	caps := []int{rootCap}
+	for i, k := 0, r.Range(0, 3); i < k; i++ {
+		p := r.Intn(len(caps))
+		if p > 1 {
+			p = 0
+		}
+		c := hx.Pick(r, []int{caps[p] + 2, caps[p], (caps[p] + 1) / 2, r.Range(1, 6)})
+		out(fmt.Sprintf("new %d %d", p, c))
+		caps = append(caps, c)
+	}
+	n := len(caps)
+	for i, k := 0, r.Range(1, 6); i < k; i++ { // fill, so that requests are waiting when the window opens
+		l := r.Intn(n)
+		out(fmt.Sprintf("use %d %d", l, hx.Pick(r, []int{1, 2, caps[l], (caps[l] + 1) / 2, rootCap})))
+	}
+	windows := r.Range(1, 3)
+	for w := 0; w < windows; w++ {
+		var ops []string
+		useDone, newDone, rootDone := false, false, false
+		for i, k := 0, r.Range(1, 3); i < k; i++ {
+			l := r.Intn(n)
+			switch x := r.Intn(10); {
+			case x < 3 && !rootDone:
+				ops = append(ops, "close 0")
+				rootDone = true
+			case x < 5 && n > 1:
+				ops = append(ops, fmt.Sprintf("close %d", r.Range(1, n-1)))
+			case x < 7 && !useDone:
+				ops = append(ops, fmt.Sprintf("use %d %d", l, hx.Pick(r, []int{1, 2, caps[l], rootCap, 0})))
+				useDone = true
+			case x < 9:
+				ops = append(ops, fmt.Sprintf("setcap %d %d", l, hx.Pick(r, []int{0, 1, caps[l] - 1, caps[l] + 2, r.Range(0, 8)})))
+			case !newDone:
+				ops = append(ops, fmt.Sprintf("new %d %d", l, r.Range(1, 5)))
+				newDone = true
+			}
+		}
+		if len(ops) == 0 {
+			ops = []string{"close 0"}
+			rootDone = true
+		}
+		for i, o := range ops { // no negative caps in the script
+			ops[i] = strings.ReplaceAll(o, " -1", " 0")
+		}
+		out("window " + hx.Pick(r, []string{"early", "early", "late"}) + " " + strings.Join(ops, " ; "))
+		if rootDone {
+			out(fmt.Sprintf("use %d 1", r.Intn(n)))
+			out("tick")
+			return cnt
+		}
+		for i, k := 0, r.Intn(3); i < k; i++ {
+			l := r.Intn(n)
+			out(fmt.Sprintf("use %d %d", l, hx.Pick(r, []int{1, caps[l], rootCap})))
+		}
+		if r.Chance(1, 2) {
+			out("tick")
+		}
+	}
+	if r.Chance(1, 2) {
+		out("close 0")
+	}
+	return cnt
+}
+
 func genHistory(r *hx.Rng, emit func(string)) int {
+	if r.Chance(1, 7) {
+		return genWindow(r, emit)
+	}
 	switch x := r.Intn(120); {
 	case x < 2:
 		return genQueue(r, emit)
